@@ -60,7 +60,14 @@ def make_case(tier, seed, index):
             if float(np.floor(spec["settings"]["start"])) not in ys and rng.random() < 0.7:
                 ys = sorted(set(ys) | {float(years[0])})
             spec["values"][c][pop] = {"t": ys, "v": [gen.sample_popsize(rng, "mild") for _ in ys]}
-    return {"kind": "generated", "spec": spec, "seed": [seed, 20, index, 1]}
+    ps = None
+    if index % 2 == 0:
+        # (half of the results are also run with a generated program set: coverage reports and program plots are reports too)
+        for p_ in spec["pars"]:
+            if not p_["timed"] and p_["name"].startswith("q") and p_["format"] in ("rate", "probability") and rng.random() < 0.5:
+                p_["targetable"] = True
+        ps = gen.gen_progspec(rng, spec)
+    return {"kind": "generated", "spec": spec, "seed": [seed, 20, index, 1], "progspec": ps}
 
 
 def series_of(pd_, pop, output, result="res"):
@@ -463,6 +470,52 @@ def run_case(case):
         import shutil
 
         shutil.rmtree(td, ignore_errors=True)
+    # ---- 5. ... nor do coverage reports, program plots and exports of a result that was run with programs ------------------------
+    if case.get("progspec"):
+        try:
+            pset_ = gen.build_progset(case["progspec"], P.framework, P.data)
+            instr_ = gen.build_instructions(case["progspec"])
+            res_p = P.run_sim(P.parsets[0], progset=pset_, progset_instructions=instr_, result_name="withprogs")
+        except Exception as e:
+            res_p = None
+            R.count("program_run_failed[%s]" % type(e).__name__)
+        if res_p is not None:
+            R.count("results_with_programs")
+            base_p = {k_: np.array(v_, copy=True) for k_, v_ in digest.result_arrays(res_p).items()}
+            td2 = tempfile.mkdtemp(prefix="av_c20p_")
+            reports = [("get_coverage[%s]" % q_, (lambda q_=q_: res_p.get_coverage(q_))) for q_ in ("capacity", "eligible", "fraction", "number")]
+            reports += [("get_alloc", lambda: res_p.get_alloc()), ("export_results", lambda: at.export_results([res_p], os.path.join(td2, "p.xlsx")))]
+            for qn in ("spending", "coverage_fraction", "coverage_number", "coverage_eligible", "coverage_capacity"):
+                reports.append(("PlotData.programs[%s]" % qn, (lambda qn=qn: at.PlotData.programs(res_p, quantity=qn))))
+            first_answers = {}
+            try:
+                for rep in range(2):
+                    for name, fn in reports:
+                        try:
+                            out_ = fn()
+                        except Exception as e:
+                            R.count("program_report_failed[%s:%s]" % (name.split("[")[0], type(e).__name__))
+                            continue
+                        d_ = digest.compare_arrays(base_p, digest.result_arrays(res_p))
+                        R.count("result_digest_checks")
+                        if d_:
+                            R.bad("plots-do-not-modify-result", "C20:result-modified-by[%s]" % name, {"first_differences": [list(map(str, x)) for x in d_[:3]]})
+                            raise StopIteration
+                        R.ok("plots-do-not-modify-result")
+                        if isinstance(out_, dict):
+                            ans = {str(k_): np.array(v_, dtype=float, copy=True) for k_, v_ in out_.items()}
+                            if name in first_answers:
+                                same_ = all(k_ in ans and ans[k_].shape == v_.shape and np.all((ans[k_] == v_) | (np.isnan(ans[k_]) & np.isnan(v_))) for k_, v_ in first_answers[name].items())
+                                if not same_:
+                                    R.bad("value-independent-of-other-requests", "C20:repeated-report-differs[%s]" % name, {"report": name})
+                                else:
+                                    R.ok("value-independent-of-other-requests")
+                            first_answers.setdefault(name, ans)
+            except StopIteration:
+                pass
+            finally:
+                plt.close("all")
+                shutil.rmtree(td2, ignore_errors=True)
     sample = dict(simprop.sample_of(spec))
     sample["cascade"] = spec["cascades"][0]["stages"]
     sample["output_pool"] = [key_of(o) for o in pool]
